@@ -56,6 +56,17 @@ func init() {
 	probes["O53"] = probeO53
 	probes["O54"] = probeO54
 	probes["O55"] = probeO55
+	probes["O76"] = func() (bool, string) {
+		return guard(func() (bool, string) {
+			r, x, d := ucfg.New(), ucfg.New(), ucfg.New()
+			x.SetInt("k", -1, 1)
+			r.SetChild("b", -1, x)
+			r.SetString("b", -1, "s") // x is replaced
+			d.SetChild("a", -1, x)    // ... and attached elsewhere
+			err := x.SetChild("a", -1, r)
+			return x.Path(".") != "a" || x.Parent() != d || err != nil, fmt.Sprintf("re-attached config: Path %q, Parent is the new parent: %v; attaching its former parent below it: %v", x.Path("."), x.Parent() == d, err)
+		})
+	}
 	probes["O75"] = func() (bool, string) {
 		return guard(func() (bool, string) {
 			in := func() map[string]interface{} {
